@@ -256,6 +256,8 @@ def rule_dimensions(ctx):
 
 
 def run(ctx):
+    from . import c15
+    c15.rule_moments_every_time(ctx)     # R15.12: tree forces are computed from current sources
     rule_dimensions(ctx)
     from . import c15
     c15.rule_axis_conditions(ctx, 'R02.10', files=('tree.c', 'gravity.c'), floor=1)
